@@ -1,5 +1,6 @@
 import Canopy.Gen.Exec
 import Canopy.Model.Atomic
+import Canopy.Model.SigCache
 /-! Mechanism switches of the execution models, computed from the facts regenerated from `/repo`
 (`Gen/Exec.lean`). The models (`Model/Exec.lean`, `Model/Atomic.lean`) are parametric in these
 switches; the property theorems are stated for the switched-on mechanism and each switch is proved
@@ -42,6 +43,24 @@ def headerAssignedFromInputsFact : Bool :=
 
 /-- what `honest_proposal_accepted` needs of `ProduceProposal` -/
 def proposalBuildFact : Bool := resultsFinalisedAfterHashFact && headerAssignedFromInputsFact
+
+/-- every write of the process-wide signature cache in `lib/crypto` sits under a positive verification
+of the tuple it writes: the four `VerifyBytes` call `addToCache()` inside `if valid = …; valid`, the
+batch verifier's one-by-one pass writes inside `if ok := tuple.PublicKey.VerifyBytes(…); ok`, and its
+ed25519 batch pass writes the batched tuples only in the `else` of `if !verifier.VerifyBatchOnly(…)`,
+i.e. when the whole batch verified -/
+def signatureCacheFact : Bool :=
+  signatureCacheWrites ==
+    ["bls.go BLS12381PublicKey.VerifyBytes / if valid = b.scheme.Verify(b.Point, msg, sig) == nil; valid => addToCache()",
+     "ed25519.go ED25519PublicKey.VerifyBytes / if valid = ed25519.Verify(p.PublicKey, msg, sig); valid => addToCache()",
+     "eth_secp256k1.go ETHSECP256K1PublicKey.VerifyBytes / if valid = ethCrypto.VerifySignature(s.BytesWithPrefix(), Hash(msg), sig); valid => addToCache()",
+     "key_batch.go BatchVerifier.verifyAll / func verifyBatch / for _, tuple := range tuples / if ok := tuple.PublicKey.VerifyBytes(tuple.Message, tuple.Signature); ok => SignatureCache.Set(tuple.Key(), []byte{0})",
+     "key_batch.go BatchVerifier.verifyAll / if len(b.ed25519[idx]) != 0 / if len(notInCache) != 0 / else of if !verifier.VerifyBatchOnly(rand.Reader) / for i := range notInCache => SignatureCache.Set(cacheKeys[i], []byte{0})",
+     "key_batch.go CheckCache / func addToCache => SignatureCache.Set(key, []byte{0})",
+     "secp256k1.go SECP256K1PublicKey.VerifyBytes / if valid = ethCrypto.VerifySignature(s.Bytes(), Hash(msg), sig); valid => addToCache()"]
+
+/-- the signature-cache mechanism of the source tree -/
+def sigCacheCfgOfFacts : Canopy.SigCache.Cfg := ⟨signatureCacheFact⟩
 
 end Canopy.Exec
 
